@@ -130,69 +130,74 @@ Fixpoint count_out (fuel : nat) (endv : Z) (rout : Z) (st : sie) : sie * Z :=
 
 (* _GD_SampIndWrite; None = the C function returns -1 (fseek/fread failure).
    _GD_GetNRec flushes the stream before fstat() (fix dfe28bf), so nrec is the
-   number of records of the file. *)
+   number of records of the file.  The function is split in two for the proofs:
+   phase 1 decides the first in-core record (looking back at the previous record
+   when the write starts at the beginning of the current one); the tail compresses
+   the data in core, counts the records to replace, moves the trailing records,
+   inserts the new ones and truncates. *)
+Definition sie_write_ph1 (d0 : sample) (st : sie) : option (sie * sierec) :=
+  if ((cr st =? -1) || bof st) && (cp st =? 0) then Some (st, (fst (cd st), d0))
+  else if negb (bof st) then
+    let bk : option (sie * bool) :=
+      if have_l st then Some (st, false)
+      else match nth_rec (recs st) (fpos st - 2) with
+           | Some l' => Some (mkSie (recs st) (fpos st - 1) (cr st) (cp st) (cs st) (cd st) l' false (bof st) (filepos st), true)
+           | None => None
+           end in
+    match bk with
+    | None => None
+    | Some (st1, need_adv) =>
+      let ls := fst (cl st1) in
+      if cp st1 =? ls + 1 then
+        if sample_eqb (snd (cl st1)) d0 then
+          (* combine with the previous record *)
+          let fp := if have_l st1 then fpos st1 - 1 else fpos st1 in
+          Some (mkSie (recs st1) fp (cr st1 - 1) (cp st1) (fst (cl st1)) (cl st1) (cl st1) false (bof st1) (filepos st1),
+                cl st1)
+        else
+          let st2 := if need_adv
+                     then mkSie (recs st1) (fpos st1 + 1) (cr st1) (cp st1) (cs st1) (cd st1) (cl st1) true (bof st1) (filepos st1)
+                     else st1 in
+          Some (st2, (fst (cd st2), d0))
+      else
+        let st2 := if need_adv
+                   then mkSie (recs st1) (fpos st1 + 1) (cr st1) (cp st1) (cs st1) (cd st1) (cl st1) true (bof st1) (filepos st1)
+                   else st1 in
+        Some (st2, cd st2)
+    end
+  else Some (st, cd st).
+
+Definition sie_write_tail (zero : sample) (data : list sample) (nrec : Z) (st1 : sie) (first : sierec) : option sie :=
+  let nelem := Z.of_nat (length data) in
+  let endv := cp st1 + nelem - 1 in
+  let pb := match compress_loop (cp st1) 0 data [first] with
+            | (_, cur) :: rest => rev ((endv, cur) :: rest)
+            | [] => []
+            end in
+  let rin := Z.of_nat (length pb) in
+  let fr := if cr st1 <? 0 then 0 else cr st1 in
+  let rout0 := if cr st1 <? 0 then -1 else 0 in
+  let '(st2, rout) := count_out (S (length (recs st1))) endv rout0 st1 in
+  let ntrail := nrec - (fr + rout) in
+  let f1 := if 0 <? ntrail
+            then rec_overwrite zero (recs st2) (fr + rin)
+                   (firstn (Z.to_nat ntrail) (skipn (Z.to_nat (fr + rout)) (recs st2)))
+            else recs st2 in
+  let f2 := rec_overwrite zero f1 fr pb in
+  let f3 := if rin <? rout then firstn (Z.to_nat (nrec - rout + rin)) f2 else f2 in
+  let dl := last pb first in
+  if (rin <? rout) && (nrec - rout + rin <? 0) then None   (* ftruncate to a negative size fails *)
+  else
+  (* since fix adbcfc3 the I/O pointer is the sample after the last one written *)
+  Some (mkSie f3 (fr + rin) (fr + rin - 1) (fst dl + 1) (fst dl) dl (cl st2) false (rin <=? 1) (fst dl + 1)).
+
 Definition sie_write (zero : sample) (data : list sample) (st : sie) : option sie :=
   match data with
   | [] => Some st
   | d0 :: _ =>
-    let nelem := Z.of_nat (length data) in
-    let nrec := Z.of_nat (length (recs st)) in
-    (* phase 1: decide the first in-core record *)
-    let ph1 : option (sie * sierec) :=
-      if ((cr st =? -1) || bof st) && (cp st =? 0) then Some (st, (fst (cd st), d0))
-      else if negb (bof st) then
-        let bk : option (sie * bool) :=
-          if have_l st then Some (st, false)
-          else match nth_rec (recs st) (fpos st - 2) with
-               | Some l' => Some (mkSie (recs st) (fpos st - 1) (cr st) (cp st) (cs st) (cd st) l' false (bof st) (filepos st), true)
-               | None => None
-               end in
-        match bk with
-        | None => None
-        | Some (st1, need_adv) =>
-          let ls := fst (cl st1) in
-          if cp st1 =? ls + 1 then
-            if sample_eqb (snd (cl st1)) d0 then
-              (* combine with the previous record *)
-              let fp := if have_l st1 then fpos st1 - 1 else fpos st1 in
-              Some (mkSie (recs st1) fp (cr st1 - 1) (cp st1) (fst (cl st1)) (cl st1) (cl st1) false (bof st1) (filepos st1),
-                    cl st1)
-            else
-              let st2 := if need_adv
-                         then mkSie (recs st1) (fpos st1 + 1) (cr st1) (cp st1) (cs st1) (cd st1) (cl st1) true (bof st1) (filepos st1)
-                         else st1 in
-              Some (st2, (fst (cd st2), d0))
-          else
-            let st2 := if need_adv
-                       then mkSie (recs st1) (fpos st1 + 1) (cr st1) (cp st1) (cs st1) (cd st1) (cl st1) true (bof st1) (filepos st1)
-                       else st1 in
-            Some (st2, cd st2)
-        end
-      else Some (st, cd st) in
-    match ph1 with
+    match sie_write_ph1 d0 st with
     | None => None
-    | Some (st1, first) =>
-      let endv := cp st1 + nelem - 1 in
-      let pb := match compress_loop (cp st1) 0 data [first] with
-                | (_, cur) :: rest => rev ((endv, cur) :: rest)
-                | [] => []
-                end in
-      let rin := Z.of_nat (length pb) in
-      let fr := if cr st1 <? 0 then 0 else cr st1 in
-      let rout0 := if cr st1 <? 0 then -1 else 0 in
-      let '(st2, rout) := count_out (S (length (recs st1))) endv rout0 st1 in
-      let ntrail := nrec - (fr + rout) in
-      let f1 := if 0 <? ntrail
-                then rec_overwrite zero (recs st2) (fr + rin)
-                       (firstn (Z.to_nat ntrail) (skipn (Z.to_nat (fr + rout)) (recs st2)))
-                else recs st2 in
-      let f2 := rec_overwrite zero f1 fr pb in
-      let f3 := if rin <? rout then firstn (Z.to_nat (nrec - rout + rin)) f2 else f2 in
-      let dl := last pb first in
-      if (rin <? rout) && (nrec - rout + rin <? 0) then None   (* ftruncate to a negative size fails *)
-      else
-      (* since fix adbcfc3 the I/O pointer is the sample after the last one written *)
-      Some (mkSie f3 (fr + rin) (fr + rin - 1) (fst dl + 1) (fst dl) dl (cl st2) false (rin <=? 1) (fst dl + 1))
+    | Some (st1, first) => sie_write_tail zero data (Z.of_nat (length (recs st))) st1 first
     end
   end.
 
